@@ -18,6 +18,7 @@ def tree_hash():
     files += walk_files(os.path.join(REPO, "lib", "runtime"), (".c", ".h", "Makefile"))
     files += walk_files(os.path.join(REPO, "lib", "stdlib"), (".c", ".h", ".ddp"), exclude_dirs=("build",))
     files += [os.path.join(REPO, "go.mod")]
+    files += [os.path.join(VERIF, "harness", "cdaemon", "main.go")]
     return hash_files(files)
 
 
@@ -68,6 +69,16 @@ def build(asan=False, tags="byollvm"):
                 cwd=os.path.join(REPO, "cmd", "kddp"), env=llvm_env(), timeout=3000)
         if p.returncode != 0:
             raise RuntimeError("kddp build failed:\n" + p.stderr[-4000:])
+        # in-process batch compiler (same sources, same LLVM) for bulk compilation
+        hsrc = os.path.join(VERIF, "harness")
+        gosum = os.path.join(hsrc, "go.sum")
+        repo_sum = open(os.path.join(REPO, "go.sum")).read()
+        if not os.path.exists(gosum) or open(gosum).read() != repo_sum:
+            open(gosum, "w").write(repo_sum)
+        p = run(["go", "build", "-o", os.path.join(ddp, "bin", "cdaemon"), "-tags", tags + " verif", "./cdaemon"],
+                cwd=hsrc, env=llvm_env(), timeout=3000)
+        if p.returncode != 0:
+            raise RuntimeError("cdaemon build failed:\n" + p.stderr[-4000:])
         # runtime + stdlib: copy sources to scratch, compile there
         scratch = os.path.join(root, "src")
         shutil.copytree(os.path.join(REPO, "lib", "runtime"), os.path.join(scratch, "runtime"))
@@ -182,7 +193,7 @@ class RunResult:
         return {"stage": self.stage, "class": self.cls, "stdout": self.stdout[-2000:], "stderr": self.stderr[-1500:], "exit": self.exit, "compile_out": self.compile_out[-1500:]}
 
 
-def compile_run(ddp, files, cfg=None, stdin="", timeout=10, main="main.ddp", extra_c=None, workdir=None, keep=False):
+def compile_run(ddp, files, cfg=None, stdin="", timeout=10, main="main.ddp", extra_c=None, workdir=None, keep=False, compile_only=False):
     """files: dict relpath -> source text. Compiles `main` with kddp of the
     tree, links with gcc, runs. Returns RunResult."""
     cfg = cfg or Config()
@@ -212,6 +223,10 @@ def compile_run(ddp, files, cfg=None, stdin="", timeout=10, main="main.ddp", ext
             r.stage = "compile"
             r.exit = p.returncode
             r.classify()
+            return r
+        if compile_only:
+            r.stage = "run"
+            r.cls = "ok"
             return r
         libdir = os.path.join(ddp, "lib_asan" if cfg.asan else "lib")
         exe = os.path.join(workdir, "prog")
@@ -251,8 +266,94 @@ def compile_run(ddp, files, cfg=None, stdin="", timeout=10, main="main.ddp", ext
             shutil.rmtree(workdir, ignore_errors=True)
 
 
-def farm(ddp, jobs, workers=None):
-    """jobs: list of (files, cfg, kwargs). Returns results in order."""
-    workers = workers or NPROC
+def _link_run(ddp, workdir, cfg, r, stdin="", timeout=10, extra_c=None):
+    obj = os.path.join(workdir, "out.o")
+    e = dict(os.environ)
+    e["DDPPATH"] = ddp
+    e["LOCPATH"] = LOCALE
+    libdir = os.path.join(ddp, "lib_asan" if cfg.asan else "lib")
+    exe = os.path.join(workdir, "prog")
+    link = ["gcc", "-o", exe, obj]
+    for c in (extra_c or []):
+        link += [os.path.join(workdir, c)]
+    link += ["-I" + os.path.join(ddp, "include")]
+    if not cfg.listdefs_link:
+        link.append(os.path.join(ddp, "lib", "ddp_list_types_defs.o"))
+    link += ["-L" + libdir, "-lddpstdlib", "-lddpruntime", "-lm", os.path.join(libdir, "main.o")]
+    if cfg.asan:
+        link += ["-fsanitize=address,undefined"]
+    p = run(link, cwd=workdir, timeout=120)
+    if p.returncode != 0:
+        r.stage = "link"
+        r.compile_out += p.stderr
+        r.classify()
+        return r
+    if cfg.asan:
+        e["ASAN_OPTIONS"] = "detect_leaks=1:abort_on_error=0:exitcode=99"
+        e["UBSAN_OPTIONS"] = "print_stacktrace=0"
+    try:
+        pr = subprocess.run([exe], cwd=workdir, env=e, input=stdin.encode(), stdout=subprocess.PIPE, stderr=subprocess.PIPE, timeout=timeout)
+        r.stdout = pr.stdout.decode("utf-8", "replace")
+        r.stderr = pr.stderr.decode("utf-8", "replace")
+        r.exit = pr.returncode
+    except subprocess.TimeoutExpired as ex:
+        r.timeout = True
+        r.stdout = (ex.stdout or b"").decode("utf-8", "replace")
+        r.stderr = (ex.stderr or b"").decode("utf-8", "replace")
+    r.classify()
+    return r
+
+
+def farm(ddp, jobs, workers=None, daemons=5):
+    """jobs: list of (files, cfg, kwargs). Compiles with the in-process batch compiler
+    (cdaemon, same compiler sources), links and runs in a thread pool; anything the
+    daemon could not answer, and every failure, is re-done with the real `kddp` binary.
+    Returns RunResults in order."""
+    import json
+    from .corr import run_lines
+    workers = workers or max(4, NPROC // 2)
+    base = os.path.join(CACHE, "work")
+    os.makedirs(base, exist_ok=True)
+    dirs = []
+    lines = []
+    for files, cfg, *rest in jobs:
+        kw = rest[0] if rest else {}
+        wd = tempfile.mkdtemp(dir=base)
+        dirs.append(wd)
+        for rel, txt in files.items():
+            pth = os.path.join(wd, rel)
+            os.makedirs(os.path.dirname(pth), exist_ok=True)
+            with open(pth, "w", encoding="utf-8", newline="") as f:
+                f.write(txt)
+        rq = {"dir": wd, "main": kw.get("main", "main.ddp"), "out": os.path.join(wd, "out.o"), "opt": cfg.opt,
+              "link_modules": cfg.module_link, "link_listdefs": cfg.listdefs_link}
+        lines.append(json.dumps(rq).encode().hex())
+    env = dict(os.environ)
+    env["DDPPATH"] = ddp
+    answers = run_lines(os.path.join(ddp, "bin", "cdaemon"), lines, env=env, chunks=daemons if len(lines) >= daemons * 4 else 1)
+    results = [None] * len(jobs)
+
+    def finish(i):
+        files, cfg, *rest = jobs[i]
+        kw = dict(rest[0]) if rest else {}
+        compile_only = kw.pop("compile_only", False)
+        r = RunResult()
+        try:
+            a = json.loads(answers[i])
+        except Exception:
+            a = None
+        if a is None or a.get("result") not in ("ok",):
+            # confirm with the real compiler binary (also covers daemon crashes)
+            shutil.rmtree(dirs[i], ignore_errors=True)
+            return compile_run(ddp, files, cfg, compile_only=compile_only, **kw)
+        try:
+            if compile_only:
+                r.cls = "ok"
+                return r
+            return _link_run(ddp, dirs[i], cfg, r, stdin=kw.get("stdin", ""), timeout=kw.get("timeout", 10), extra_c=kw.get("extra_c"))
+        finally:
+            shutil.rmtree(dirs[i], ignore_errors=True)
+
     with ThreadPoolExecutor(workers) as ex:
-        return list(ex.map(lambda j: compile_run(ddp, j[0], j[1], **(j[2] if len(j) > 2 else {})), jobs))
+        results = list(ex.map(finish, range(len(jobs))))
+    return results
